@@ -29,7 +29,10 @@ for fn, key, n in (("mutants.json", "mutants.json", nm), ("benign.json", "benign
     src = os.path.join(out, fn)
     if not os.path.exists(src):
         continue
-    items = [norm(m) for m in json.load(open(src))]
+    raw = json.load(open(src))
+    if isinstance(raw, dict):  # {PROP: [...]} as in selftest/mutants.json
+        raw = [m for l in raw.values() for m in l]
+    items = [norm(m) for m in raw]
     ok = []
     for m in items:
         p = os.path.join("/repo", m["file"])
